@@ -505,6 +505,9 @@ def root_exceptions(ctx, n):
 def run(ctx):
     choreographed_threads(ctx, ctx.n(3, 25))
     root_exceptions(ctx, ctx.n(60, 800))
+    # simulations one after the other / nested that share condition objects do not influence each other (family of C01)
+    from harness.props import C01
+    C01.reused_conditions(ctx, ctx.n(20, 300))
     scs, impl = machine_prop.run(ctx, [('mixed', 100, 1500, {}), ('trees', 60, 1000, {}), ('timers', 60, 1000, {'till_p': 0.8})],
                                  ['C15', 'till'])
     cases = run_programs(ctx, ctx.n(150, 3000))
